@@ -29,12 +29,12 @@ CHECKS = {
     "C01": {
         "pkg": "c01", "level": "exploration",
         "manifest": {
-            "text": "generated histories of runs against one registered-key directory and one scripted forwarded agent; the harness observes every challenge and reply on the agent connection and recomputes itself whether proof of possession was given; handler lists with any accept / reject pattern",
+            "text": "generated histories of runs against one registered-key directory and one scripted forwarded agent; the harness observes every challenge and reply on the agent connection and recomputes itself whether proof of possession was given; handler lists with any accept / reject pattern; a forwarded agent that answers the challenge only after seconds, with and without a run deadline (slowness is neither proof nor refusal)",
             "note": "unpredictability of the challenge cannot be tested; what is decided is length, freshness over the history and that a captured signature never authenticates again; at most one real handler per list",
             "technique": "stateful property-based testing (rapid): scripted adversarial agent + independent verification of the challenge response + handler-order model",
         },
         "assumptions": ["the CA double and the steps after authentication are honest, so 'a handler authenticates' implies 'the run succeeds'"],
-        "subchecks": [R("TestC01Auth", 300, 2000, qs=2), R("TestC01ChallengeHelper", 2000, 20000)],
+        "subchecks": [R("TestC01Auth", 300, 2000, qs=2), R("TestC01ChallengeHelper", 2000, 20000), E("TestC01Slow")],
     },
     "C02": {
         "pkg": "c02", "level": "exploration",
@@ -92,7 +92,7 @@ CHECKS = {
     "C06": {
         "pkg": "c06", "level": "exploration",
         "manifest": {
-            "text": "the harness holds the device private key, so it can present a signature for any encoded message; each generated (encoded message, label, key size, chain relation) is judged by recomputing sig^e mod N and comparing with the two full-length encodings; one complete sweep over all byte positions for a 1024-bit key",
+            "text": "the harness holds the device private key, so it can present a signature for any encoded message; each generated (encoded message, label, key size, chain relation) is judged by recomputing sig^e mod N and comparing with the two full-length encodings; one complete sweep over all byte positions for a 1024-bit key; an Attestor reused across a validity boundary of the device certificate (the clock at the call decides); every verdict repeated after a genuine attestation (history independence)",
             "note": "sampling over positions/values for the larger keys; signatures s+kN denote the same value mod N and are not generated; chain validity is by construction (issuer in pool and inside its validity window)",
             "technique": "property-based testing (rapid) with constructed signatures; oracle = independent PKCS#1 v1.5 encoder and recomputed public-key operation",
         },
@@ -100,16 +100,17 @@ CHECKS = {
         "subchecks": [
             R("TestC06Attest", 1500, 6000),
             E("TestC06PositionSweep"),
-            E("TestC06ChainTime"),
+            E("TestC06ChainTime"), E("TestC06AttestorAge"),
             E("TestC06KeySizes"),
             R("TestC06Sequence", 300, 2000, ts=4),
+            R("TestC06Concurrent", 30, 300, qs=2, ts=8),
             R("TestC06RealDER", 200, 800, ts=4),
         ],
     },
     "C07": {
         "pkg": "c07", "level": "exploration",
         "manifest": {
-            "text": "model-based histories over a real shim agent and a directly observed keyring, with certificates of every validity class incl. the forever value, values above MaxInt64 and certificates that lapse during the history",
+            "text": "model-based histories over a real shim agent and a directly observed keyring, with certificates of every validity class incl. the forever value, values above MaxInt64 and certificates that lapse during the history; signatures through signers the caller kept from an earlier Signers() call, also across a lapse",
             "note": "sequential histories; wall-clock only enters through explicit lapse steps with a 1 s guard, ambiguous histories are abandoned, never reported",
             "technique": "stateful property-based testing (rapid) against a reference model of the purge rules",
         },
@@ -119,6 +120,7 @@ CHECKS = {
             R("TestC07PurgeRefused", 150, 1500),
             R("TestC07Many", 25, 250, ts=4),
             R("TestC07Lapse", 6, 60, qs=8, ts=16, thorough_extra={"timeout": 1200}),
+            R("TestC07HeldSigner", 4, 30, qs=6, ts=16, quick_extra={"timeout": 300}),
         ],
     },
     "C08": {
@@ -130,17 +132,18 @@ CHECKS = {
         },
         "assumptions": ["the proxy emulates ssh-agent lock semantics (empty list, failure for everything else, passphrase compare)"],
         "subchecks": [R("TestC08Lock", 400, 2000, qs=2), R("TestC08LockRace", 40, 400, qs=2, ts=8),
-                      R("TestC08Slow", 4, 24, qs=8, ts=16, quick_extra={"timeout": 300})],
+                      R("TestC08Slow", 4, 24, qs=8, ts=16, quick_extra={"timeout": 300}),
+                      R("TestC08UnlockUnlocked", 200, 2000, ts=4)],
     },
     "C09": {
         "pkg": "c09", "level": "exploration",
         "manifest": {
-            "text": "each generated history runs on a no-upstream shim and on a normal shim over identical keyrings; both are judged by the reference model in which hiding is decided by an independent KeyID decoder",
+            "text": "each generated history runs on a no-upstream shim and on a normal shim over identical keyrings; both are judged by the reference model in which hiding is decided by an independent KeyID decoder; certificates added by another client while one operation is being answered (between two requests of that operation)",
             "note": "sequential histories; KeyID classes are constructed per class, the reference decoder is the cross-check",
             "technique": "stateful property-based testing (rapid): differential pair + reference model",
         },
         "assumptions": ["golang.org/x/crypto keyring is the underlying agent"],
-        "subchecks": [R("TestC09NoUpstream", 300, 1500, qs=2), R("TestC09Many", 25, 250, ts=4)],
+        "subchecks": [R("TestC09NoUpstream", 300, 1500, qs=2), R("TestC09Many", 25, 250, ts=4), R("TestC09AddedMeanwhile", 300, 3000, ts=8)],
     },
     "C10": {
         "pkg": "c10", "level": "exploration",
@@ -167,6 +170,8 @@ CHECKS = {
             E("TestC11SignersStorm", quick={"shards": 1, "timeout": 600}, thorough={"shards": 1, "timeout": 900}),
             E("TestC11SlowUpstream", quick={"shards": 1, "timeout": 600}, thorough={"shards": 1, "timeout": 900}),
             E("TestC11CloseInFlight", quick={"shards": 1, "timeout": 600}, thorough={"shards": 1, "timeout": 900}),
+            E("TestC11VanishingClient", quick={"shards": 1, "timeout": 600}, thorough={"shards": 1, "timeout": 900}),
+            E("TestC11ReadYourWrites", quick={"shards": 1, "timeout": 600}, thorough={"shards": 1, "timeout": 1200}),
             R("TestC11Concurrent", 40, 250, qs=2, quick_extra={"timeout": 600}, thorough_extra={"timeout": 1500}),
             R("TestC11Sequential", 150, 1500, qs=2, ts=8, quick_extra={"timeout": 600}, thorough_extra={"timeout": 1500}),
         ],
@@ -174,7 +179,7 @@ CHECKS = {
     "C12": {
         "pkg": "c12", "level": "exploration",
         "manifest": {
-            "text": "grammar-generated and coverage-guided byte streams served in-process over an in-memory connection; the harness parses the same stream independently and predicts, per frame, 'exactly one response of this kind' or 'answer or end with an error'; frames of length 0/1/2 are enumerated for every message code",
+            "text": "grammar-generated and coverage-guided byte streams served in-process over an in-memory connection; the harness parses the same stream independently and predicts, per frame, 'exactly one response of this kind' or 'answer or end with an error'; frames of length 0/1/2 are enumerated for every message code; structured requests with an inner length field overwritten by boundary values",
             "note": "a total recording agent is served (mode A); the real server over shim+proxy is served with wait codes >= 40 only (mode B, response counting only), except in TestC12WaitFirstUse where wait frames for codes < 40 arrive together with the first request of their code on other connections of a fresh server and must be answered within 5 s of continued serving; a frame cut off by the end of stream (in the length prefix or in the body) must end service with an error",
             "technique": "property-based testing (rapid) + native fuzzing + enumeration of short frames; oracle = independent stream parser and per-frame response prediction",
         },
@@ -203,6 +208,8 @@ CHECKS = {
             R("TestC13Client", 1500, 8000, quick_extra={"timeout": 120}, thorough_extra={"timeout": 900}),
             R("TestC13Tool", 150, 500),
             E("TestC13Slow", thorough={"shards": 1, "timeout": 600}),
+            E("TestC13Sizes"),
+            E("TestC13SharedClient", quick={"shards": 1, "timeout": 300}, thorough={"shards": 1, "timeout": 900}),
         ],
     },
     "C14": {
@@ -222,7 +229,7 @@ CHECKS = {
     "C15": {
         "pkg": "c15", "level": "exploration",
         "manifest": {
-            "text": "generated attribute sets round-tripped through both wire formats, hand-built JSON and legacy texts judged by a reference decoder (encoding/json into a mirror of the documented wire names) and a set-valued reference tokeniser",
+            "text": "generated attribute sets round-tripped through both wire formats, hand-built JSON and legacy texts judged by a reference decoder (encoding/json into a mirror of the documented wire names) and a set-valued reference tokeniser; the same oracles applied from 2..16 goroutines at once",
             "note": "sampling; legacy round trip only over the stated domain (values free of Unicode whitespace and '@'); encoding/json trusted as the meaning of 'decodes as a JSON attribute object'",
             "technique": "property-based testing (rapid) + native fuzzing; oracle = round-trip + reference decoder (differential)",
         },
@@ -235,6 +242,7 @@ CHECKS = {
             R("TestC15LegacyRoundTrip", 10000, 100000),
             R("TestC15LegacyText", 10000, 100000),
             R("TestC15JSONText", 10000, 100000),
+            R("TestC15Concurrent", 60, 600, qs=2),
             F("FuzzC15Unmarshal", "60s"),
         ],
     },
@@ -284,6 +292,7 @@ CHECKS = {
         "subchecks": [
             E("TestC18Grid"),
             E("TestC18Expiry"),
+            E("TestC18Aliases"),
             R("TestC18TLS", 120, 500, qs=2),
         ],
     },
@@ -300,12 +309,13 @@ CHECKS = {
             R("TestC19Random", 20000, 200000),
             R("TestC19PrincipalsAllTypes", 5000, 50000, ts=4),
             R("TestC19Listing", 300, 3000, ts=8),
+            R("TestC19Concurrent", 60, 600, qs=2),
         ],
     },
     "C20": {
         "pkg": "c20", "level": "exploration", "race": True,
         "manifest": {
-            "text": "harness-owned schedules over a real server: the executor advances only on observed states (waiter count of the code's condition variable, response read), so the ordering of registration and requests is controlled, not timed; every message code 0..255 is exercised once with a non-matching and a matching request; binary built with the race detector",
+            "text": "harness-owned schedules over a real server: the executor advances only on observed states (waiter count of the code's condition variable, response read), so the ordering of registration and requests is controlled, not timed; every message code 0..255 is exercised once with a non-matching and a matching request; binary built with the race detector; registered waiters released by a matching request that arrives in the middle of concurrent traffic with other codes",
             "note": "registration/broadcast atomicity inside sync.Cond is trusted; the waiter count is read with reflect from the unexported table (if its shape changes the check reports nothing); a 15 s watchdog only separates 'released but never returned' (violation) from progress",
             "technique": "schedule-controlled property-based testing (rapid) + enumeration of all codes + race detector; oracle = waiter-set model",
         },
@@ -314,6 +324,8 @@ CHECKS = {
             E("TestC20AllCodes", quick={"shards": 1, "timeout": 300}, thorough={"shards": 1, "timeout": 600}),
             R("TestC20Wait", 200, 2000, qs=2, quick_extra={"timeout": 300}),
             R("TestC20Blackbox", 12, 120, qs=4, ts=8, quick_extra={"timeout": 300}),
+            R("TestC20Concurrent", 8, 60, qs=4, ts=8, quick_extra={"timeout": 300}),
+            E("TestC20BusyUpstream", quick={"shards": 1, "timeout": 300}, thorough={"shards": 1, "timeout": 600}),
         ],
     },
 }
